@@ -182,7 +182,9 @@ class Run:
         Returns (summed JUDGED counters, list of verdict files, directory)."""
         d = self.sub(name)
         nlines = count_lines(resfile)
-        k = max(1, min(NPROC, 12, (nlines + unit - 1) // unit))      # 12 JVMs x 3 GB heap stay well inside 62 GB
+        kj = max(1, min(NPROC, 12, (nlines + unit - 1) // unit))     # JVMs at a time: 12 x 3 GB heap stay well inside 62 GB
+        # a JVM reads its whole part before judging it: parts are kept below ~100 MB and run in waves of kj processes
+        k = max(kj, (os.path.getsize(resfile) + (100 << 20) - 1) // (100 << 20))
         parts = [os.path.join(d, "part%d" % i) for i in range(k)]
         for pd in parts:
             os.makedirs(pd, exist_ok=True)
@@ -196,20 +198,27 @@ class Run:
             os.remove(resfile)
         cfg = ("SPECIFICATION Spec\nCONSTANTS\n  ResFile = \"res.ndjson\"\n  VerdictFile = \"verdicts.ndjson\"\n"
                "  Prop = \"%s\"\n  Shards = 1\nINVARIANT Report\nCHECK_DEADLOCK FALSE\n" % prop)
-        env = dict(os.environ, JAVA_TOOL_OPTIONS="-Xss512m -Xmn512m -XX:ParallelGCThreads=2 -Xmx%dg" % max(3, min(12, 40 // k)))   # 2 GC threads: up to 12 JVMs share 16 cores
-        procs = []
+        env = dict(os.environ, JAVA_TOOL_OPTIONS="-Xss512m -Xmn512m -XX:ParallelGCThreads=2 -Xmx%dg" % max(3, min(12, 40 // kj)))   # 2 GC threads: up to 12 JVMs share 16 cores
         t = time.time()
-        for pd in parts:
-            for f in os.listdir(SPEC):
-                if f.endswith(".tla"):
-                    shutil.copy(os.path.join(SPEC, f), pd)
-            open(os.path.join(pd, module + ".cfg"), "w").write(cfg)
-            cmd = ["timeout", "-s", "KILL", str(timeout), "tlc", "-checkpoint", "0", "-workers", "1", "-metadir", os.path.join(pd, "meta"),
-                   "-config", os.path.join(pd, module + ".cfg"), module + ".tla"]
-            procs.append(subprocess.Popen(cmd, cwd=pd, env=env, stdout=subprocess.PIPE, stderr=subprocess.STDOUT, text=True))
+        outputs = {}
+        for w0 in range(0, k, kj):
+            wave = parts[w0:w0 + kj]
+            procs = []
+            for pd in wave:
+                for f in os.listdir(SPEC):
+                    if f.endswith(".tla"):
+                        shutil.copy(os.path.join(SPEC, f), pd)
+                open(os.path.join(pd, module + ".cfg"), "w").write(cfg)
+                cmd = ["timeout", "-s", "KILL", str(timeout), "tlc", "-checkpoint", "0", "-workers", "1", "-metadir", os.path.join(pd, "meta"),
+                       "-config", os.path.join(pd, module + ".cfg"), module + ".tla"]
+                procs.append(subprocess.Popen(cmd, cwd=pd, env=env, stdout=subprocess.PIPE, stderr=subprocess.STDOUT, text=True))
+            for pd, pr in zip(wave, procs):
+                outputs[pd] = pr.communicate()[0]
+                if not keep and os.path.exists(os.path.join(pd, "res.ndjson")) and '"JUDGED ' in outputs[pd]:
+                    os.remove(os.path.join(pd, "res.ndjson"))       # judged: free the disk space
         tot, vfiles, gen, dist = {}, [], 0, 0
-        for pd, pr in zip(parts, procs):
-            out, _ = pr.communicate()
+        for pd in parts:
+            out = outputs[pd]
             open(os.path.join(pd, module + ".out"), "w").write(out)
             shutil.rmtree(os.path.join(pd, "meta"), ignore_errors=True)
             m = re.search(r'"JUDGED (.*)"', out)
@@ -234,7 +243,8 @@ class Run:
         self.states += dist
         self.transitions += gen
         tot["secs"] = round(time.time() - t, 1)
-        tot["jvms"] = k
+        tot["jvms"] = kj
+        tot["parts"] = k
         return tot, vfiles, d
 
     # ---- verdict bookkeeping -----------------------------------------------------------------
